@@ -17,7 +17,7 @@ import json
 import random
 
 from .. import dt_common as dc
-from ..core import MachineryError, model_check, pool_map, run_tlc, sany, validate_traces
+from ..core import MachineryError, model_check, pool_map, run_tlc, sany
 
 META = {
     'text': 'TLC checks the abstract SECoP type algebra against its own laws (every accepted result lies in the declared '
@@ -117,28 +117,8 @@ def _rand_records(arg):
 
 
 JUDGE_FIELDS = ('kind', 'dt', 'c', 'p', 'path', 'out')
-
-
-def _judge_chunk(recs):
-    traces = [[{k: r[k] for k in JUDGE_FIELDS}] for r in recs]
-    verdicts, st, tr = validate_traces('Trace_Datatypes', traces, 'Trace_Datatypes.cfg', timeout=1100, chunk=100000)
-    return [verdicts[i] for i in range(len(recs))], st, tr
-
-
-def judge(chk, recs):
-    """TLC's verdict for every record: None (allowed) or the violated clause"""
-    if not recs:
-        return []
-    n = max(1, min(8, len(recs) // 1500))
-    parts = [recs[i::n] for i in range(n)]
-    res = pool_map(_judge_chunk, parts, procs=n)
-    out = [None] * len(recs)
-    for k, (vs, st, tr) in enumerate(res):
-        chk.states += st
-        chk.transitions += tr
-        for i, v in enumerate(vs):
-            out[k + i * n] = None if v is None else v[1]
-    return out
+judge = dc.judge
+rkey = dc.rkey
 
 
 def _run_child(arg):
@@ -148,69 +128,21 @@ def _run_child(arg):
     return {'kind': 'case', 'dt': dt, 'c': c, 'p': p, 'path': path, 'out': out, 'via': 'ctor'}
 
 
-def rkey(r):
-    return dc.key([r['dt'], r['c'], r['p'], r['path'], r['out']])
+def _kids(r):
+    res = []
+    for sdt, sc, sp in dc.children(r['dt'], r['c'], r['p']):
+        if r['path'] == 'wire' and dc.has_internal(sc):
+            continue
+        kid = _run_child((sdt, sc, sp if r['path'] != 'call' else dc.NONE, r['path']))
+        if sp['j'] != 'none' and r['dt']['k'] == 'struct':
+            # StructOf does not hand the previous value down: judge the member as the container ran it
+            kid = _run_child((sdt, sc, dc.NONE, r['path']))
+        res.append(kid)
+    return res
 
 
 def localise(chk, failing):
-    """failing: records rejected at top level. Judge element sub-cases (TLC) until the innermost
-    rejected case is found.  returns list of (root-cause record, clause, example top-level record)"""
-    clause = {}
-    nodes = {}
-    level = {}
-    for r in failing:
-        level.setdefault(rkey(r), r)
-    top = dict(level)
-    kids_of = {}
-    for _ in range(5):
-        if not level:
-            break
-        recs = list(level.values())
-        for r, v in zip(recs, judge(chk, recs)):
-            clause[rkey(r)] = v
-            nodes[rkey(r)] = r
-        nxt = {}
-        for r in recs:
-            k = rkey(r)
-            kids_of[k] = []
-            if clause[k] is None:
-                continue
-            for sdt, sc, sp in dc.children(r['dt'], r['c'], r['p']):
-                if r['path'] == 'wire' and _has_internal(sc):
-                    continue
-                kid = _run_child((sdt, sc, sp if r['path'] != 'call' else dc.NONE, r['path']))
-                if sp['j'] != 'none' and r['dt']['k'] == 'struct':
-                    # StructOf does not hand the previous value down: judge the member as the container ran it
-                    kid = _run_child((sdt, sc, dc.NONE, r['path']))
-                kk = rkey(kid)
-                kids_of[k].append(kk)
-                if kk not in nodes and kk not in nxt:
-                    nxt[kk] = kid
-        level = nxt
-    roots = {}
-
-    def blame(k, topk):
-        bad = [x for x in kids_of.get(k, []) if clause.get(x) is not None]
-        if bad:
-            for x in bad:
-                blame(x, topk)
-        else:
-            roots.setdefault(k, topk)
-    for k in top:
-        if clause[k] is None:
-            raise MachineryError('Gen_Datatypes and Trace_Datatypes disagree on ' + json.dumps(top[k])[:1500])
-        blame(k, k)
-    return [(nodes[k], clause[k], top[tk]) for k, tk in roots.items()]
-
-
-def _has_internal(c):
-    if c['j'] in ('bytes', 'member', 'fmax'):
-        return True
-    if c['j'] == 'list':
-        return any(_has_internal(x) for x in c['xs'])
-    if c['j'] == 'obj':
-        return any(_has_internal(e['v']) for e in c['kv'])
-    return False
+    return dc.localise(chk, failing, _kids)
 
 
 def signature(r, clause):
